@@ -117,7 +117,10 @@ def materialise(d: dict, root: str, out_name: str = 'out') -> list[str]:
         _write(os.path.join(root, 'targetons.tsv'), ''.join('\t'.join(r) + '\n' for r in rows))
         argv = ['sge', os.path.join(root, 'targetons.tsv'), os.path.join(root, 'ref.fa'),
                 os.path.join(root, out_name), d.get('species', 'sp'), d.get('assembly', 'asm')]
-        if d.get('gtf'):
+        if d.get('gtfs'):       # several transcripts (harness/merge.py)
+            _write(os.path.join(root, 'annot.gtf'), ''.join(gtf_text(c_, s_, g_) for c_, s_, g_ in d['gtfs']))
+            argv += ['--gff', os.path.join(root, 'annot.gtf')]
+        elif d.get('gtf'):
             gt = gtf_text(contig, d['strand'], d['gtf'])
             if c2:
                 g2 = dict(d['gtf'], gene_id=(d['gtf']['gene_id'] + '_2' if d['gtf'].get('gene_id') else d['gtf'].get('gene_id')),
